@@ -247,7 +247,7 @@ struct Emitter {
       }
       if (isa<StringLiteral>(E)) {
         J.attribute("k", "str");
-        J.attribute("id", (int64_t)idOf(E));
+        commonExprAttrs(E, false);
         auto *SL = cast<StringLiteral>(E);
         if (SL->getCharByteWidth() == 1 && SL->getLength() <= 80)
           J.attribute("s", SL->getString());
